@@ -10,17 +10,18 @@ from checks import _ll
 PROPERTY = "C08"
 LEAN_MODULES = ["TapkeeVerif.Props.C08"]
 LEAN_EXES = ["model_c08"]
-REQUIRED_THEOREMS_FINAL = [
+REQUIRED_THEOREMS = [
     "TapkeeVerif.C08.lle_M_eq",
     "TapkeeVerif.C08.lle_rows_sum_one",
     "TapkeeVerif.C08.lle_const_eigvec",
     "TapkeeVerif.C08.ltsa_M_eq",
     "TapkeeVerif.C08.ltsa_const_null",
+    "TapkeeVerif.C08.hlle_cols_bijective_refuted",      # F-HLLE-CT open: becomes hlle_cols_bijective once the source is fixed
+    "TapkeeVerif.C08.hlle_cols_bijective_partial",
+    "TapkeeVerif.C08.hlle_cols_bijective_of_update",
     "TapkeeVerif.C08.smallest_skip_one_optimal",
+    "TapkeeVerif.C08.ltsa_affine_on_flat_partial",
 ]
-
-
-REQUIRED_THEOREMS = []
 
 
 def translate(ctx):
